@@ -50,7 +50,7 @@ func RandomSchedule(r *hx.Rng, n int) []string {
 }
 
 func store(r *hx.Rng, unique bool) sopx.StoreOpts {
-	return sopx.StoreOpts{Slot: hx.Pick(r, []int{2, 2, 3, 4, 4}), Unique: unique, InNode: r.Chance(70)}
+	return sopx.StoreOpts{Slot: hx.Pick(r, []int{2, 2, 4, 4, 4}), Unique: unique, InNode: r.Chance(70)} // odd slot lengths are rounded down by sop
 }
 
 func initKeys(r *hx.Rng, n, stride int) []KV {
@@ -110,7 +110,6 @@ func GenDisjoint(r *hx.Rng, shape string) *Program {
 		}
 		budget := p.Store.Slot - ninit // adds that keep a "removed"/"mixed-small" store a single node
 		var gets, writes []Op
-		removedOne := false
 		for k := 0; k < nops; k++ {
 			kind := "add"
 			switch shape {
@@ -119,12 +118,7 @@ func GenDisjoint(r *hx.Rng, shape string) *Program {
 				if kind == "add" && budget <= 0 {
 					kind = "remove"
 				}
-				if kind == "remove" && removedOne { // two removals by one writer: separate finding (multi-remove-tracks-wrong-item)
-					continue
-				}
-				if kind == "remove" {
-					removedOne = true
-				}
+
 			case "mixed":
 				kind = hx.Pick(r, []string{"add", "add", "addne", "upsert", "update", "updkey", "get"})
 			}
@@ -262,11 +256,11 @@ func CorpusC04() []*Program {
 		two("doc-example", u4, kvs(10, 20, 30), "add:5000:1 add:5001:2 add:5002:3", "add:5500:4 add:5501:5 add:5502:6", "W1#20", "W2#20", "W1#20", "W2*", "W1*"),
 		two("sequential-merge", u4, kvs(10, 20, 30), "add:40:40", "add:5:5 update:20:21 remove:30", seq...),
 		two("same-leaf-split", u2, kvs(10, 20), "add:11:1 add:12:2", "add:13:3 add:14:4", "W1@reg.UpdateNoLocks", "W2@l2.Lock", "W1*", "W2*"),
-		two("removed-from-one-node", u4, kvs(10, 20, 30, 40), "remove:10", "remove:40", "W1*", "W2*"),
+		two("removed-from-one-node", u4, kvs(10, 20, 30, 40), "remove:10", "remove:40 remove:30", "W1*", "W2*"),
 		two("non-unique-values-outside", n4, kvs(10, 20, 30), "add:41:1 update:10:2", "add:42:3 remove:20", "W2*", "W1*"),
 		two("first-root-sequential", u4, nil, "add:1:1 add:3:3", "add:2:2 add:10:10", seq...),
 		// --- known defect classes
-		{Store: u4, HashMod: 2, MaxTimeMs: 25000, CtxMs: 4000, Note: "known:first-root-race",
+		{Store: u4, HashMod: 2, MaxTimeMs: 25000, Note: "known:first-root-race",
 			Writers:  []Writer{{Label: "W1", Ops: ops("add:1:1 add:3:3")}, {Label: "W2", Ops: ops("add:2:2 add:10:10")}},
 			Schedule: []string{"W1@reg.Get", "W2@reg.Get", "W1", "W2", "W1@reg.Add", "W2@reg.Add", "W1*", "W2*"}},
 		{Store: u4, HashMod: 2, MaxTimeMs: 25000, Init: kvs(10, 20, 30), Note: "known:double-merge-lost-add",
@@ -278,12 +272,12 @@ func CorpusC04() []*Program {
 		two("known:merge-get-then-shift", u4, kvs(10, 20, 30), "add:40:40", "get:20 remove:10", seq...),
 		// W2 waits for W1's node lock, refetches, and then trips over its own item lock record
 		two("known:merge-self-item-lock-conflict", u4, kvs(10, 20, 30), "update:10:11", "remove:30", "W1@reg.UpdateNoLocks", "W2@sr.GetWithTTL", "W1*", "W2*"),
-		// two removals by one writer in one leaf, then a refetch round: it looks for an item it never touched
-		two("known:multi-remove", sopx.StoreOpts{Slot: 3, Unique: true, InNode: false}, kvs(10, 20, 30), "remove:30", "remove:20 remove:10", seq...),
+		// the same, seen as a failure: 20 is the root item of a slot-2 tree 10,20,30; the replay looks for 30
+		two("known:remove-inner-item-fails", u2, kvs(10, 20, 30), "remove:30", "remove:20", seq...),
 		// removing an item that sits in an inner node: the tracker records the successor item instead
 		two("known:remove-inner-item", u2, kvs(10, 20, 30, 40, 50, 60, 70), "add:75:75", "remove:60", seq...),
 		// a new root with children is registered before its children: a concurrent merger walks into a missing child
-		{Store: sopx.StoreOpts{Slot: 3, Unique: true, InNode: true}, HashMod: 2, MaxTimeMs: 25000, CtxMs: 4000, Note: "known:first-root-visible-before-children",
+		{Store: sopx.StoreOpts{Slot: 3, Unique: true, InNode: true}, HashMod: 2, MaxTimeMs: 25000, Note: "known:first-root-visible-before-children",
 			Writers:  []Writer{{Label: "W1", Ops: ops("add:19:1019 add:3:1003")}, {Label: "W2", Ops: ops("add:8:2008 add:9:2009 add:27:2027")}},
 			Schedule: []string{"W2#9", "W2#1", "W2#5", "W1", "W1#8", "W1", "W1#8", "W2#3", "W1", "W1", "W2#14", "W1#12", "W1#12", "W2#8", "W1"}},
 	}
@@ -304,7 +298,7 @@ func CorpusC05() []*Program {
 		two("same-key-upsert", u2, kvs(10, 20, 30), "upsert:5:1 upsert:10:3", "upsert:5:2 addne:10:4", "W2#10", "W1*", "W2*"),
 		two("same-key-addne-updkey", u4, kvs(10, 20), "addne:15:1 updkey:10", "add:15:2 updkey:10", "W1@reg.Get", "W2@reg.Get", "W1*", "W2*"),
 		two("first-root-same-key-sequential", u4, nil, "add:1:1", "add:1:2", seq...),
-		{Store: u4, HashMod: 2, MaxTimeMs: 25000, CtxMs: 4000, Note: "first-root-same-key-race",
+		{Store: u4, HashMod: 2, MaxTimeMs: 25000, Note: "first-root-same-key-race",
 			Writers:  []Writer{{Label: "W1", Ops: ops("add:1:1 add:3:3")}, {Label: "W2", Ops: ops("add:1:2 add:2:2")}},
 			Schedule: []string{"W1@reg.Get", "W2@reg.Get", "W1", "W2", "W1@reg.Add", "W2@reg.Add", "W1*", "W2*"}},
 		{Store: u4, HashMod: 2, MaxTimeMs: 25000, Init: kvs(10, 20, 30), Note: "three-writers-same-key",
